@@ -394,8 +394,8 @@ execute (const scenario_t *sc, const char *property, result_t *res)
 		char cls[96], site[128];
 		int pix = (int)(i % (DW * DH));
 		snprintf (cls, sizeof cls, "C08/%s-sample-differs-from-reference", filter_names[s.filter]);
-		snprintf (site, sizeof site, "%s:%s:repeat-%s:%s", filter_names[s.filter], projective ? "projective" : s.has_transform ? "affine" : "identity",
-			  repeat_names[s.repeat], sim_format_name (s.fmt));
+		snprintf (site, sizeof site, "%s:%s:repeat-%s:%s%s", filter_names[s.filter], projective ? "projective" : s.has_transform ? "affine" : "identity",
+			  repeat_names[s.repeat], sim_format_name (s.fmt), s.w == 1 && s.h == 1 && s.repeat != PIXMAN_REPEAT_NONE ? ":1x1-repeating-source" : "");
 		res->op_index = (int)(i / (DW * DH));
 		sim_violation (res, "C08", cls, site,
 			       "chain '%s': request %d, destination pixel (%d,%d) is %08x, the reference sampler gives %08x%s (source %dx%d)",
